@@ -20,8 +20,8 @@ import (
 	"math/rand"
 	"net/http"
 	"net/http/httptest"
-	"os"
 	"net/url"
+	"os"
 	"path/filepath"
 	"strings"
 	"sync"
@@ -88,7 +88,7 @@ type Job struct {
 	Univ    string   `json:"univ"`   // std | thr | tiny
 	Random  int      `json:"random"` // rnd: number of histories
 	Rlen    int      `json:"rlen"`
-	Out     string   `json:"out"` // trace file of this job ("" = the default one)
+	Out     string   `json:"out"`    // trace file of this job ("" = the default one)
 	Direct  int      `json:"direct"` // big: blobs injected through the side door instead of uploads
 	Root    string   `json:"root"`   // "bs" | "root" | "" (alternate between histories)
 	Tag     string   `json:"tag"`    // name of the leg in reset lines (default: Leg)
